@@ -18,6 +18,11 @@ VERUS = {
     # &ConstDivisorRepr: same (q, r) as plain division by the divisor the ConstDivisor was built from.
     # Trusted: num_modular PreMulInv2by1/PreMulInv3by2 wrappers + dividers (stubs), Buffer/Repr stubs.
     'int_div_const': {'file': 'int_div_const.rs', 'w32': True},
+    # div/divide_conquer.rs (Burnikel-Ziegler): div_rem_in_place, div_rem_in_place_same_len,
+    # div_rem_in_place_small_quotient (mutually recursive, with termination measures): the contract proved for
+    # simple::div_rem_in_place (a == q*b + r, r < b, carry <=> top words >= b).  Trusted: ASSUMED contract of
+    # mul::add_signed_mul ("c += sign*a*b, returns carry"), Memory stub; const_assert! (compile-time) ignored.
+    'int_div_dc': {'file': 'int_div_dc.rs', 'w32': True},
 }
 
 KANI = {
@@ -35,10 +40,14 @@ KANI = {
 }
 
 PROP_UNITS = {
-    'C02': {'verus': ['int_div_simple', 'int_div_ops', 'int_div_ops_zero', 'int_div_const'], 'kani': ['int_div_simple_k'],
-            'undecided': ['divide_conquer::div_rem_in_place (divisor and quotient both > 32 words): assumed contract, '
-                          'no proof and no feasible bounded check',
-                          'the match dispatch of impl Div/Rem/DivRem for TypedRepr(Ref) in div_ops.rs::repr']},
-    'C16': {'verus': ['int_div_simple', 'int_div_ops', 'int_div_ops_zero', 'int_div_const']},
-    'C19': {'verus': ['int_div_simple', 'int_div_ops', 'int_div_const']},
+    'C02': {'verus': ['int_div_simple', 'int_div_ops', 'int_div_ops_zero', 'int_div_const', 'int_div_dc'], 'kani': ['int_div_simple_k'],
+            'undecided': ['mul::add_signed_mul (general multiplication dispatch) is an ASSUMED contract inside the '
+                          'divide-and-conquer division proof; no bounded check of divide_conquer.rs on the real crate '
+                          '(needs > 32-word operands: infeasible for CBMC)',
+                          'the match dispatch of impl Div/Rem/DivRem for TypedRepr(Ref) in div_ops.rs::repr (the functions '
+                          'it dispatches to are proved)',
+                          'ConstLargeDivisor::{new, divisor, rem_large, rem_repr}, ConstDivisor::new/from_word/from_dword, '
+                          'impl Div<&ConstDivisorRepr> for TypedReprRef is not in the code; UBig/IBig wrappers of div_const.rs']},
+    'C16': {'verus': ['int_div_simple', 'int_div_ops', 'int_div_ops_zero', 'int_div_const', 'int_div_dc']},
+    'C19': {'verus': ['int_div_simple', 'int_div_ops', 'int_div_const', 'int_div_dc']},
 }
